@@ -59,9 +59,9 @@ fn payload(kind: usize, src: &mut Src) -> Vec<u8> {
         }
         11 => {
             // exactly one complete, well-formed CBOR item of arbitrary shape and nesting depth
-            let depth = *src.pick(&[0usize, 1, 3, 4, 5, 6, 8, 16]);
+            let depth = *src.pick(&[0usize, 1, 3, 4, 5, 6, 8, 16, 17, 18, 32, 33, 100, 1000, 5000]);
             let kind = src.below(4);
-            let v = if kind == 3 { crate::mutate::any_value(src, depth.min(6)) } else { crate::mutate::nest(Value::Uint(0), depth, kind) };
+            let v = if kind == 3 && depth <= 16 { crate::mutate::any_value(src, depth.min(6)) } else { crate::mutate::nest(Value::Uint(0), depth, kind) };
             refcbor::encode(&v)
         }
         12 => {
@@ -103,6 +103,25 @@ fn payload(kind: usize, src: &mut Src) -> Vec<u8> {
             }
             p
         }
+        13 => {
+            // a well-formed credential-management parameter map carrying an unknown member (any
+            // value: nested containers, tags, floats, simple values) inside one of its text-keyed maps
+            let mut v = gen_cm(src, &mut info);
+            let hosts: Vec<crate::mutate::Path> = crate::mutate::maps(&v).into_iter().filter(|p| p.len() >= 2).collect();
+            if !hosts.is_empty() {
+                let hp = hosts[src.below(hosts.len())].clone();
+                let val = match src.below(4) {
+                    0 => Value::Tag(1, Box::new(Value::Uint(1_694_498_816))),
+                    1 => Value::Tag(6, Box::new(Value::Array(vec![Value::text("nfc")]))),
+                    _ => crate::mutate::any_value(src, 3),
+                };
+                if let Some(Value::Map(m)) = crate::mutate::get_mut(&mut v, &hp) {
+                    let pos = src.below(m.len() + 1);
+                    m.insert(pos, (Value::text(*src.pick(&["extra", "transports", "zz"])), val));
+                }
+            }
+            refcbor::encode(&v)
+        }
         9 => {
             // trailing data up to and beyond the maximum message size (total 7609 / 7610 / far more)
             let n = *src.pick(&[7607usize, 7608, 7609, 7610, 9000, 20_000, 70_000]);
@@ -115,7 +134,7 @@ fn payload(kind: usize, src: &mut Src) -> Vec<u8> {
         }
     }
 }
-const PAYLOAD_KINDS: usize = 13;
+const PAYLOAD_KINDS: usize = 14;
 
 trait PipeEncode {
     fn pipe_encode(self) -> Vec<u8>;
@@ -272,7 +291,7 @@ pub fn gens() -> Vec<Gen> {
     vec![G_BYTE, G_TABLE, G_CONCRETE]
 }
 
-pub const RULE: &str = "Exhaustive over all 256 first bytes x 13 payload classes (exactly one well-formed CBOR item of arbitrary shape and depth; a complete CTAP2 message wrapped as an NFCCTAP_MSG APDU / length-prefixed / repeated; a credential-management parameter map with a member removed at some level / a value of another type / empty; very long trailing data up to 70 000 bytes; empty; the valid payload of each of the five parameter-bearing commands; truncated CBOR; malformed CBOR; random bytes), with proptest supplying the payload values; plus one whole-table case checking pairwise distinctness of the operations of all recognised bytes. Oracle: the specification table (assigned = 01,02,04,06,07,08,09,0A,0B,0C,0D,40,41; vendor = 0x42..0x7F): Operation::try_from is Ok exactly on assigned+vendor and converts back to the same byte; VendorOperation::try_from accepts exactly 0x40..0x7F; parameter-less commands decode from their byte alone whatever follows; 0x41||p and 0x0A||p decode identically; 09/0D/40 and every unassigned byte give InvalidCommand whatever follows. Every case is non-trivial (each byte/payload pair is a distinct table probe).";
+pub const RULE: &str = "Exhaustive over all 256 first bytes x 14 payload classes (a credential-management map with an unknown member holding tags / nested values; exactly one well-formed CBOR item of arbitrary shape and depth; a complete CTAP2 message wrapped as an NFCCTAP_MSG APDU / length-prefixed / repeated; a credential-management parameter map with a member removed at some level / a value of another type / empty; very long trailing data up to 70 000 bytes; empty; the valid payload of each of the five parameter-bearing commands; truncated CBOR; malformed CBOR; random bytes), with proptest supplying the payload values; plus one whole-table case checking pairwise distinctness of the operations of all recognised bytes. Oracle: the specification table (assigned = 01,02,04,06,07,08,09,0A,0B,0C,0D,40,41; vendor = 0x42..0x7F): Operation::try_from is Ok exactly on assigned+vendor and converts back to the same byte; VendorOperation::try_from accepts exactly 0x40..0x7F; parameter-less commands decode from their byte alone whatever follows; 0x41||p and 0x0A||p decode identically; 09/0D/40 and every unassigned byte give InvalidCommand whatever follows. Every case is non-trivial (each byte/payload pair is a distinct table probe).";
 pub const ASSUMPTIONS: &[&str] = &["the assigned-code table is transcribed from CTAP 2.1 section 6 and the FIDO prototype codes 0x40/0x41"];
 
 pub fn run(ctx: &mut Ctx) {
@@ -288,8 +307,9 @@ pub fn run(ctx: &mut Ctx) {
     for b in [0x41u32, 0x0A] {
         ctx.random(&G_BYTE, &[b, idx(4, PAYLOAD_KINDS)], ctx.t(400, 10_000), 700);
         ctx.random(&G_BYTE, &[b, idx(10, PAYLOAD_KINDS)], ctx.t(1500, 30_000), 700);
+        ctx.random(&G_BYTE, &[b, idx(13, PAYLOAD_KINDS)], ctx.t(1500, 30_000), 700);
     }
     ctx.enumerate(&G_TABLE, std::iter::once(vec![]));
-    ctx.exhaustive.push("all 256 command bytes x 13 payload classes; all pairs of recognised bytes".into());
+    ctx.exhaustive.push("all 256 command bytes x 14 payload classes; all pairs of recognised bytes".into());
     ctx.require(&["byte-class:assigned", "byte-class:vendor", "byte-class:unassigned", "table-injectivity"]);
 }
